@@ -205,46 +205,86 @@ func TestEngineB(t *testing.T) {
 // ---------------------------------------------------------------------------
 // C17: failure modes the OS can report, root reached through a symlinked parent
 
+type ModeCase struct {
+	Req     vfs.Req `json:"req"`
+	ViaLink bool    `json:"via_link"`
+}
+
+type modeEnv struct {
+	base, real string
+	secrets    []string
+	srv        *Server
+}
+
+func newModeEnv(t testing.TB, viaLink bool) *modeEnv {
+	base, err := os.MkdirTemp("", "cfs17")
+	if err != nil {
+		t.Fatal(err)
+	}
+	a, b := token(), token()
+	real := filepath.Join(base, a, b, "root")
+	os.MkdirAll(real, 0o755)
+	root := real
+	secrets := []string{a, b, real}
+	if viaLink {
+		l := token()
+		if err := os.Symlink(filepath.Join(base, a), filepath.Join(base, l)); err != nil {
+			t.Fatal(err)
+		}
+		root = filepath.Join(base, l, b, "root")
+		secrets = append(secrets, l, root)
+	}
+	return &modeEnv{base: base, real: real, secrets: secrets, srv: NewServer(root)}
+}
+
+// fixture: a file, a dir with a file, a symlink loop, a dangling symlink, an
+// in-tree link to a directory (COPY reads it as a file); rebuilt before every
+// request because the requests are destructive.
+func (m *modeEnv) fixture() {
+	real := m.real
+	os.RemoveAll(real)
+	os.MkdirAll(filepath.Join(real, "d", "sub"), 0o755)
+	os.WriteFile(filepath.Join(real, "f"), []byte("data"), 0o644)
+	os.WriteFile(filepath.Join(real, "d", "g"), []byte("g"), 0o644)
+	os.Symlink("loop", filepath.Join(real, "loop"))
+	os.Symlink("nowhere", filepath.Join(real, "dangling"))
+	os.Symlink(filepath.Join(real, "d", "sub"), filepath.Join(real, "d", "lnk"))
+}
+
+func (m *modeEnv) run(r vfs.Req) (Resp, vev.Outcome, error) {
+	m.fixture()
+	resp, err := m.srv.Do(r)
+	if err != nil {
+		return resp, vev.Outcome{}, err
+	}
+	if resp.Panic != nil {
+		return resp, vev.Outcome{Sig: vev.Sig("modes", "panic", r.Method), Msg: fmt.Sprintf("panic: %v", resp.Panic)}, nil
+	}
+	o := CheckC17(Step{Before: vfs.NewDir(), Req: r, Resp: resp}, m.secrets)
+	if !o.OK() {
+		o.Sig = "modes|" + o.Sig
+	}
+	return resp, o, nil
+}
+
 func TestDisclosureModes(t *testing.T) {
 	if vev.ReplayFile() != "" {
 		t.Skip()
 	}
 	for _, viaLink := range []bool{false, true} {
-		base, err := os.MkdirTemp("", "cfs17")
-		if err != nil {
-			t.Fatal(err)
-		}
-		a, b := token(), token()
-		real := filepath.Join(base, a, b, "root")
-		os.MkdirAll(real, 0o755)
-		root := real
-		secrets := []string{a, b, real}
-		if viaLink {
-			l := token()
-			if err := os.Symlink(filepath.Join(base, a), filepath.Join(base, l)); err != nil {
-				t.Fatal(err)
-			}
-			root = filepath.Join(base, l, b, "root")
-			secrets = append(secrets, l, root)
-		}
-		srv := NewServer(root)
-		// content: a file, a dir with a file, a symlink loop, a dangling symlink
-		os.WriteFile(filepath.Join(real, "f"), []byte("data"), 0o644)
-		os.MkdirAll(filepath.Join(real, "d", "sub"), 0o755)
-		os.WriteFile(filepath.Join(real, "d", "g"), []byte("g"), 0o644)
-		os.Symlink("loop", filepath.Join(real, "loop"))
-		os.Symlink("nowhere", filepath.Join(real, "dangling"))
+		m := newModeEnv(t, viaLink)
 		long := strings.Repeat("n", 300)
-		paths := []string{"/", "/f", "/d", "/d/g", "/f/x", "/missing", "/missing/x", "/loop", "/loop/x", "/dangling", "/" + long, "/d/" + long, "/" + long + "/x", "/d/sub"}
+		paths := []string{"/", "/f", "/d", "/d/g", "/f/x", "/missing", "/missing/x", "/loop", "/loop/x", "/dangling", "/" + long, "/d/" + long, "/" + long + "/x", "/d/sub", "/d/lnk", "/d/lnk/x"}
 		var reqs []vfs.Req
 		for _, p := range paths {
-			for _, m := range []string{"GET", "HEAD", "OPTIONS", "DELETE", "MKCOL", "PROPFIND", "FROB"} {
-				reqs = append(reqs, vfs.Req{Method: m, Path: p})
+			for _, meth := range []string{"GET", "HEAD", "OPTIONS", "DELETE", "MKCOL", "PROPFIND", "FROB"} {
+				reqs = append(reqs, vfs.Req{Method: meth, Path: p})
 			}
 			reqs = append(reqs, vfs.Req{Method: "PUT", Path: p, Body: "z"})
 			for _, d := range paths {
-				for _, m := range []string{"COPY", "MOVE"} {
-					reqs = append(reqs, vfs.Req{Method: m, Path: p, HasDest: true, Dest: EscapePath(d), Overwrite: "F"})
+				for _, meth := range []string{"COPY", "MOVE"} {
+					reqs = append(reqs, vfs.Req{Method: meth, Path: p, HasDest: true, Dest: EscapePath(d), Overwrite: "F"})
+					reqs = append(reqs, vfs.Req{Method: meth, Path: p, HasDest: true, Dest: EscapePath(d)})
 				}
 			}
 		}
@@ -252,22 +292,18 @@ func TestDisclosureModes(t *testing.T) {
 			if !vev.MyShare(i) {
 				continue
 			}
-			resp, err := srv.Do(r)
+			resp, o, err := m.run(r)
 			if err != nil {
 				continue
 			}
-			st := Step{Before: vfs.NewDir(), Req: r, Resp: resp}
 			key := fmt.Sprintf("modes/%v/%s", viaLink, r.String())
 			rec17.Case(fmt.Sprintf("modes/%dxx", resp.Status/100), resp.Status >= 400 && len(resp.Body) > 0, key, func() any {
 				return map[string]any{"request": r.String(), "via_symlinked_parent": viaLink, "status": resp.Status, "body": fmt.Sprintf("%.160s", resp.Body)}
 			})
-			if resp.Panic != nil && rec17.Active() {
-				rec17.Violation(t, vev.Sig("panic", r.Method), "cfs-modes", r, "panic: %v", resp.Panic)
-			}
-			if o := CheckC17(st, secrets); !o.OK() && rec17.Active() && !rec17.Known(o.Sig) {
-				rec17.Violation(t, "modes|"+o.Sig, "cfs-modes", map[string]any{"req": r, "via_link": viaLink}, "%s", o.Msg)
+			if !o.OK() && rec17.Active() && !rec17.Known(o.Sig) {
+				rec17.Violation(t, o.Sig, "cfs-modes", ModeCase{Req: r, ViaLink: viaLink}, "%s", o.Msg)
 			}
 		}
-		os.RemoveAll(base)
+		os.RemoveAll(m.base)
 	}
 }
